@@ -1077,9 +1077,13 @@ def _prematerialised(ck, tier, seed):
                 # quick tier: every history on Grid.isel(n_face); the index tables alone / everything / everything shipped on
                 # Grid.isel(n_node) and UxDataArray.isel(n_face); everything / everything shipped on all other routes
                 # (those without the 'none' run: a failure that does not need pre-materialisation is then reported under 'all')
+                # thorough tier: every history on every route of the lattice; on the other meshes every history on these three
+                # routes and none / everything / everything shipped on the others
                 isel3 = route in ("Grid.isel_n_face", "Grid.isel_n_node", "UxDataArray.isel_n_face")
                 if tier == "quick" and route != "Grid.isel_n_face" and hist[0] not in ("all", "shipped_all") and not (
                         isel3 and (hist[0] == "none" or hist[0] in CONN)):
+                    continue
+                if tier != "quick" and m is not meshes[0] and not isel3 and hist[0] not in ("none", "all", "shipped_all"):
                     continue
                 fired = _pre_run(ck, src, route, sel, via_data, hist, base)
                 n += 1
@@ -1112,7 +1116,7 @@ def subsets(tier, seed):
     hist_names = [h for h in HISTORIES if h != "none" and (h != "bounds" or _READY["jit"])]
     done = 0
     for mi, m in enumerate(meshes):
-        if time.time() - t0 > (36 if tier == "quick" else 480):
+        if time.time() - t0 > (36 if tier == "quick" else 530):
             break                       # safety net only; the mesh counts are chosen to stay below it
         done += 1
         src = Source(m)
